@@ -39,6 +39,7 @@ def sh(cmd, timeout, env=None, cwd=None, inp=None):
 
 def build_vh(race=False):
     """Build the conformance driver against /repo's CURRENT working tree with hooks on."""
+    race = race or bool(os.environ.get("VERIF_RACE"))
     sc = scratch()
     # harness module copy so that go.sum/go.mod edits never touch /verif
     hdir = os.path.join(sc, "harness")
@@ -91,6 +92,18 @@ def tlc(spec_dir, module, cfg_text, env=None, workers=8, timeout=600, extra=None
             r["error"] = out[-3000:]
     shutil.rmtree(os.path.join(d, "meta"), ignore_errors=True)
     return r
+
+
+def race_reports(out):
+    """Go race detector reports in a driver's output: [(top frames of the two accesses, concerns engine code?, text)]"""
+    res = []
+    for b in re.split(r"={18}\n", out):
+        if "WARNING: DATA RACE" not in b:
+            continue
+        tops = re.findall(r"(?:Read|Write|Previous read|Previous write) at [^\n]*\n\s+([^\n]+)\n", b)
+        eng = any("github.com/rulego/streamsql" in t and "/verifhook." not in t for t in tops)
+        res.append((tops, eng, b[:4000]))
+    return res
 
 
 def prints(out, tag):
